@@ -14,19 +14,20 @@ open Gen Gen.Defaults
 /-! ### const_value -/
 
 /-- **const_value.**  Whenever thriftgo accepts an initializer (`resolveConst … = ok e`) and the IDL's rules
-give it a value, the Go expression it emits evaluates to that value -- for every type shape, nested
-list/set/map/struct literals, enum members by name or number, and references to other constants also across
-includes (the package-level environment `goEnvOf` is itself defined by `resolveConst` on the referenced
-constants).  Hypotheses: the program was accepted (`Accepted`), and the three shapes on which the statement
-is FALSE on the model and on the code are excluded by `good` (see `const_value_fails_*` below):
-string literals whose emitted text Go reads differently (`litOK`), identifiers inside a literal of a struct
-defined in another file, members that need `&` applied to something not addressable. -/
-theorem const_value (E : Env) (hacc : Accepted E) (hgood : EnvGood E) (fuel root g : Nat) (t : ATy) (v : CV)
+give it a value, the Go expression it emits evaluates to that value -- for every type shape (typedef'd
+containers included), nested list/set/map/struct literals also of structs defined in other files, enum members by
+name or number, string literals with any escapes, and references to other constants also across includes (the
+package-level environment `goEnvOf` is itself defined by `resolveConst` on the referenced constants).
+`g` is the file the type is written in, `gv` the file the initializer is written in (`Resolver.values`).
+Hypotheses: the program was accepted (`Accepted`); `good` excludes the one shape on which the statement is still
+FALSE on the model and on the code: a struct-typed member of a struct literal given by the identifier of a struct
+constant (`&C` with `C` already a pointer, see `const_value_fails_struct_member_by_ident`). -/
+theorem const_value (E : Env) (hacc : Accepted E) (hgood : EnvGood E) (fuel root gv g : Nat) (t : ATy) (v : CV)
     (e : GoExpr) (val : GoVal)
-    (h : resolveConst E root g t v = .ok e) (hg : good E g t v = true)
-    (hI : evalIDL E (idlEnvOf E fuel) g g t v = some val) :
+    (h : resolveConst E root gv g t v = .ok e) (hg : good E g t v = true)
+    (hI : evalIDL E (idlEnvOf E fuel) g gv t v = some val) :
     evalGo E (goEnvOf E fuel) e = some val :=
-  rc_sound (envAgree E hacc hgood fuel) root v g g t e val h (Or.inl rfl) hg hI
+  rc_sound (envAgree E hacc hgood fuel) root gv v g t e val h hg hI
 
 /-- const_value for the generated package-level declarations themselves: the Go constant/variable generated
 for an IDL constant holds the value its initializer denotes. -/
@@ -71,17 +72,18 @@ example : goEnvOf demoEnv 3 0 nmC = some (.strct [.int 7, .list [.int 1, .int 7]
 
 end witness
 
-/-! The three excluded shapes are genuine failures (of the model, and -- replayed by the harness -- of the code). -/
+/-! Regression items: the three shapes that failed before the fixes 4cb0c25 (`Resolver.values`), f3f901c
+(`quoteLiteral`) and 029e141 (pointer trick for enums) now have the value the IDL gives them. -/
 
-/-- `'a\"b'`: the IDL literal means `a"b`; the emitted Go text `"a\\"b"` does not compile. -/
-theorem const_value_fails_escaped_quote :
-    resolveConst { files := [{ ns := 1, includes := [] }] } 0 0 (.base .str) (.lit [97, 92, 34, 98]) = .ok (.strLit [34, 97, 92, 92, 34, 98, 34]) ∧
+/-- `'a\"b'`: the emitted Go text is `"a\"b"` and Go reads `a"b`, the IDL literal's meaning. -/
+theorem regression_escaped_quote :
+    resolveConst { files := [{ ns := 1, includes := [] }] } 0 0 0 (.base .str) (.lit [97, 92, 34, 98]) = .ok (.strLit [34, 97, 92, 34, 98, 34]) ∧
     evalIDL { files := [{ ns := 1, includes := [] }] } (fun _ _ => none) 0 0 (.base .str) (.lit [97, 92, 34, 98]) = some (.bytes [97, 34, 98]) ∧
-    evalGo { files := [{ ns := 1, includes := [] }] } (fun _ _ => none) (.strLit [34, 97, 92, 92, 34, 98, 34]) = none := ⟨rfl, rfl, rfl⟩
+    evalGo { files := [{ ns := 1, includes := [] }] } (fun _ _ => none) (.strLit [34, 97, 92, 34, 98, 34]) = some (.bytes [97, 34, 98]) := ⟨rfl, rfl, rfl⟩
 
 /-- a.thrift: `include "b.thrift"`, `const b.S C = {"f": b.K}`; b.thrift: `include "c.thrift"`, `const i32 K = 7`,
-`struct S {1: i32 f}`; c.thrift: `const i32 K = 111`.  The member `b.K` is resolved in the scope of b.thrift,
-where include number 0 is c.thrift: Go holds 111, the IDL says 7. -/
+`struct S {1: i32 f}`; c.thrift: `const i32 K = 111`.  The member `b.K` is looked up in the file of the literal:
+Go holds 7 (it held 111 when members were resolved in the scope of b.thrift). -/
 def scopeEnv : Env :=
   { files := [
       { ns := 1, includes := [(1, true)],
@@ -93,11 +95,10 @@ def scopeEnv : Env :=
       { ns := 3, includes := [],
         consts := [{ name := [75], ty := .base .i32, val := .int 111 }] }] }
 
-theorem const_value_fails_foreign_struct_literal :
-    idlEnvOf scopeEnv 3 0 [67] = some (.strct [.int 7]) ∧ goEnvOf scopeEnv 3 0 [67] = some (.strct [.int 111]) := ⟨rfl, rfl⟩
+theorem regression_foreign_struct_literal :
+    idlEnvOf scopeEnv 3 0 [67] = some (.strct [.int 7]) ∧ goEnvOf scopeEnv 3 0 [67] = some (.strct [.int 7]) := ⟨rfl, rfl⟩
 
-/-- `enum E {A}` `struct S {1: optional E e}` `const S C = {"e": E.A}`: the IDL value is S{e: 0}; the emitted
-`&S{E: &E_A}` takes the address of a constant and has no value. -/
+/-- `enum E {A}` `struct S {1: optional E e}` `const S C = {"e": E.A}`: `&S{E: &(&struct{x E}{E_A}).x}` holds S{e: 0}. -/
 def addrEnv : Env :=
   { files := [
       { ns := 1, includes := [],
@@ -106,8 +107,23 @@ def addrEnv : Env :=
         consts := [{ name := [67], ty := .named .strct none [83], val := .map [
           (.lit [101], .ident [69, 46, 65] (some { isEnum := true, index := none, name := [65], sel := [69] }))] }] }] }
 
-theorem const_value_fails_optional_enum_member :
-    idlEnvOf addrEnv 2 0 [67] = some (.strct [.int 0]) ∧ goEnvOf addrEnv 2 0 [67] = none := ⟨rfl, rfl⟩
+theorem regression_optional_enum_member :
+    idlEnvOf addrEnv 2 0 [67] = some (.strct [.int 0]) ∧ goEnvOf addrEnv 2 0 [67] = some (.strct [.int 0]) := ⟨rfl, rfl⟩
+
+/-- The shape `good` still excludes is a genuine failure: `struct I {1: i32 a}` `struct O {1: I i}`
+`const I CI = {"a": 1}` `const O CO = {"i": CI}` emits `&O{I: &CI}` -- a `**I` that does not compile -- while the IDL
+value is O{i: I{a: 1}}. -/
+def ptrEnv : Env :=
+  { files := [
+      { ns := 1, includes := [],
+        structs := [{ name := [73], fields := [{ name := [97], req := .default, ty := .base .i32, dflt := none }] },
+                    { name := [79], fields := [{ name := [105], req := .default, ty := .named .strct none [73], dflt := none }] }],
+        consts := [{ name := [67, 73], ty := .named .strct none [73], val := .map [(.lit [97], .int 1)] },
+                   { name := [67, 79], ty := .named .strct none [79], val := .map [
+                      (.lit [105], .ident [67, 73] (some { isEnum := false, index := none, name := [67, 73], sel := [] }))] }] }] }
+
+theorem const_value_fails_struct_member_by_ident :
+    idlEnvOf ptrEnv 3 0 [67, 79] = some (.strct [.strct [.int 1]]) ∧ goEnvOf ptrEnv 3 0 [67, 79] = none := ⟨rfl, rfl⟩
 
 /-! ### const_reject_iff -/
 
@@ -116,10 +132,10 @@ of C04's catalogue (`accScalar`), for struct-likes an identifier that resolves o
 literals naming fields and whose values are accepted at the fields' types (in the scope of the struct's file),
 for containers elements accepted at the element type -- and, as the code has it, ANY initializer of another
 kind for a container (it becomes `T{}`). -/
-theorem const_reject_iff (E : Env) (root g : Nat) (t : ATy) (v : CV) :
-    (∃ e, resolveConst E root g t v = .ok e) ↔ accepts E root g t v = true := by
-  rw [← rc_isOk E root v g t]
-  cases resolveConst E root g t v <;> simp [resOk]
+theorem const_reject_iff (E : Env) (root gv g : Nat) (t : ATy) (v : CV) :
+    (∃ e, resolveConst E root gv g t v = .ok e) ↔ accepts E root gv g t v = true := by
+  rw [← rc_isOk E root gv v g t]
+  cases resolveConst E root gv g t v <;> simp [resOk]
 
 /-- the syntactic kinds each category takes (necessary for acceptance; identifiers must also resolve) -/
 def kindAllowed : Cat → CV → Bool
@@ -134,43 +150,73 @@ def kindAllowed : Cat → CV → Bool
   | _, _ => false
 
 /-- a kind mismatch on a scalar or struct-like type is never accepted -/
-theorem kind_mismatch_rejected (E : Env) (root g : Nat) (t : ATy) (v : CV) (h : kindAllowed t.cat v = false) :
-    ∀ e, resolveConst E root g t v ≠ .ok e := by
+theorem kind_mismatch_rejected (E : Env) (root gv g : Nat) (t : ATy) (v : CV) (h : kindAllowed t.cat v = false) :
+    ∀ e, resolveConst E root gv g t v ≠ .ok e := by
   intro e he
-  have hacc := (const_reject_iff E root g t v).mp ⟨e, he⟩
+  have hacc := (const_reject_iff E root gv g t v).mp ⟨e, he⟩
   rw [accepts.eq_def] at hacc
   cases hc : t.cat <;> cases v <;> simp_all [kindAllowed, accScalar, accBool, accInt, accDouble, accStr, accEnum]
 
 /-- the tolerance: a number or a literal given for a container is accepted and becomes the empty container -/
-theorem container_tolerance (E : Env) (root g : Nat) (t : ATy) (v : CV) (ty : GoTy)
+theorem container_tolerance (E : Env) (root gv g : Nat) (t : ATy) (v : CV) (ty : GoTy) (p : Nat × ATy)
     (hc : t.cat = .list ∨ t.cat = .set ∨ t.cat = .map) (htn : typeName E root g t = .ok ty)
+    (hd : derefC E g t = .ok p)
     (hv : (match v with | .int _ | .dbl _ _ | .lit _ => true | _ => false) = true) :
-    resolveConst E root g t v = .ok (if t.cat = .map then .mapLit ty [] else .sliceLit ty []) := by
+    resolveConst E root gv g t v = .ok (if t.cat = .map then .mapLit ty [] else .sliceLit ty []) := by
   rw [resolveConst.eq_def]
   rcases hc with hc | hc | hc <;> cases v <;> simp_all
 
 /-! ### string_literal_emission -/
 
 /-- **string_literal_emission.**  For a string-typed initializer that is a literal, the emitted Go text is
-`"` ++ the literal with every `"` preceded by `\` ++ `"`, and nothing else is touched. -/
-theorem string_literal_emission (E : Env) (root g : Nat) (t : ATy) (s : Bytes) (hc : t.cat = .str) :
-    resolveConst E root g t (.lit s) = .ok (.strLit ([34] ++ s.flatMap (fun c => if c = 34 then [92, 34] else [c]) ++ [34])) := by
+`"` ++ `quoteBody s` ++ `"`, where `quoteBody` is `quoteLiteral`'s loop: a backslash is copied together with
+the character after it (only `\'` loses its backslash), a bare `"` becomes `\"`, a raw line feed / carriage
+return becomes `\n` / `\r`, everything else is copied. -/
+theorem string_literal_emission (E : Env) (root gv g : Nat) (t : ATy) (s : Bytes) (hc : t.cat = .str) :
+    resolveConst E root gv g t (.lit s) = .ok (.strLit ([34] ++ quoteBody s ++ [34])) := by
   rw [resolveConst.eq_def]
-  simp [hc, onStrBin, strBinCore, emitStr, escQ_eq_flatMap]
+  simp [hc, onStrBin, strBinCore, emitStr]
 
-/-- Go reads the emitted text as the literal's meaning whenever the scan of the literal never meets a quote
-right after a backslash that starts an escape sequence, nor a raw newline. -/
-theorem string_literal_value (s : Bytes) (h : litSafe .norm s = true) : goUnquote (emitStr s) = interp s :=
-  goUnquote_emit h
+/-- what `quoteBody` does, clause by clause -/
+theorem quoteBody_clauses (c d : Nat) (r : Bytes) :
+    quoteBody [] = [] ∧
+    quoteBody (92 :: 39 :: r) = 39 :: quoteBody r ∧
+    (d ≠ 39 → quoteBody (92 :: d :: r) = 92 :: d :: quoteBody r) ∧
+    quoteBody [92] = [92] ∧
+    quoteBody (34 :: r) = 92 :: 34 :: quoteBody r ∧
+    quoteBody (10 :: r) = 92 :: 110 :: quoteBody r ∧
+    quoteBody (13 :: r) = 92 :: 114 :: quoteBody r ∧
+    (c ≠ 92 → c ≠ 34 → c ≠ 10 → c ≠ 13 → quoteBody (c :: r) = c :: quoteBody r) := by
+  refine ⟨rfl, by simp [quoteBody], ?_, by simp [quoteBody], ?_, ?_, ?_, ?_⟩
+  · intro h; simp [quoteBody, h]
+  · cases r <;> simp [quoteBody]
+  · cases r <;> simp [quoteBody]
+  · cases r <;> simp [quoteBody]
+  · intro h1 h2 h3 h4; cases r <;> simp [quoteBody, h1, h2, h3, h4]
 
-/-- Consequence: a literal without backslash and newline is its own value in Go. -/
-theorem string_literal_plain (s : Bytes) (h : ∀ c ∈ s, c ≠ 92 ∧ c ≠ 10) : goUnquote (emitStr s) = some s :=
-  goUnquote_emit_plain h
+/-- **string_literal_value.**  For EVERY literal, Go reads the emitted text as the literal's meaning (`interp`:
+Go's escape sequences, `\'` a single quote, a double quote and a line break standing for themselves); in
+particular an invalid escape sequence is invalid on both sides. Proved by simulation of the scanner on the
+emitted text. -/
+theorem string_literal_value (s : Bytes) : goUnquote (emitStr s) = interp s :=
+  goUnquote_emit s
 
-/-- The excluded shapes are defects (DESIGN §7): `'a\"b'` and a raw newline give Go text that does not compile. -/
-theorem string_literal_defects :
-    (goUnquote (emitStr [97, 92, 34, 98]) = none ∧ interp [97, 92, 34, 98] = some [97, 34, 98]) ∧
-    (goUnquote (emitStr [97, 10, 98]) = none ∧ interp [97, 10, 98] = some [97, 10, 98]) := by decide
+/-- Consequence: a literal without backslash is its own value in Go (quotes and line breaks included). -/
+theorem string_literal_plain (s : Bytes) (h : ∀ c ∈ s, c ≠ 92) : goUnquote (emitStr s) = some s := by
+  rw [goUnquote_emit]
+  unfold interp
+  induction s with
+  | nil => simp [interpFrom]
+  | cons c r ih =>
+    have hc := h c List.mem_cons_self
+    have := ih (fun x hx => h x (List.mem_cons_of_mem _ hx))
+    simp [interpFrom, idlStep, lexStep, hc, this]
+
+/-- Regression items (defects before f3f901c): `'a\"b'` and a raw newline are read by Go as the IDL means them. -/
+theorem string_literal_regressions :
+    (goUnquote (emitStr [97, 92, 34, 98]) = some [97, 34, 98] ∧ interp [97, 92, 34, 98] = some [97, 34, 98]) ∧
+    (goUnquote (emitStr [97, 10, 98]) = some [97, 10, 98] ∧ interp [97, 10, 98] = some [97, 10, 98]) ∧
+    (goUnquote (emitStr [105, 116, 92, 39, 115]) = some [105, 116, 39, 115]) := by decide
 
 /-! ### NewX / InitDefault / getters / IsSet -/
 
@@ -178,7 +224,7 @@ theorem string_literal_defects :
 value that default denotes; (2) every other field holds the Go zero value / nil. -/
 theorem newX_defaults (E : Env) (hacc : Accepted E) (hgood : EnvGood E) (fuel file : Nat) (st : AStruct) (sd : StructDef)
     (i : Nat) (af : AField) (fd : FieldDef) (haf : st.fields[i]? = some af) (hfd : sd.fields[i]? = some fd) :
-    (∀ d e val, af.dflt = some d → resolveConst E file file af.ty d = .ok e → good E file af.ty d = true →
+    (∀ d e val, af.dflt = some d → resolveConst E file file file af.ty d = .ok e → good E file af.ty d = true →
         evalIDL E (idlEnvOf E fuel) file file af.ty d = some val →
         (match newX (structDefOf E fuel file st sd) with | .strct vs => vs[i]? | _ => none) = some val) ∧
     (af.dflt = none →
@@ -187,7 +233,7 @@ theorem newX_defaults (E : Env) (hacc : Accepted E) (hgood : EnvGood E) (fuel fi
     rw [List.getElem?_zip_eq_some]; exact ⟨hfd, haf⟩
   constructor
   · intro d e val hd he hg hI
-    have hv := const_value E hacc hgood fuel file file af.ty d e val he hg hI
+    have hv := const_value E hacc hgood fuel file file file af.ty d e val he hg hI
     simp only [newX, structDefOf, List.map_map, List.getElem?_map, hz, Option.map_some, Function.comp]
     simp [fieldDefault, hd, he, hv]
   · intro hd
